@@ -368,6 +368,61 @@ def judge_attrs(ver, base, derived, st):
     return out
 
 
+# ------------------------------------------------------------------------------------ wildcards across namespaces
+
+CROSS_NS = ['##any', '##other', '##targetNamespace', '##local', 'urn:a', 'urn:b', 'urn:a urn:b', 'urn:c ##local',
+            '##targetNamespace ##local', '##other ##local' ]
+CROSS_NS = [c for c in CROSS_NS if c != '##other ##local']     # not a legal value of the namespace attribute
+CROSS_PROBE_NS = ['urn:a', 'urn:b', 'urn:c', '']
+
+
+def judge_crossns(ver, kind, c1, c2, st):
+    """The base type lives in namespace urn:a, the restriction in urn:b: '##other' and '##targetNamespace' mean
+    something different in the two schema documents.  kind = 'elem' (xs:any) or 'attr' (xs:anyAttribute), lax."""
+    if kind == 'elem':
+        w = '<xs:sequence><xs:any namespace="%s" processContents="lax" minOccurs="0" maxOccurs="unbounded"/></xs:sequence>'
+    else:
+        w = '<xs:anyAttribute namespace="%s" processContents="lax"/>'
+    a_xsd = ('<xs:schema xmlns:xs="%s" xmlns:a="urn:a" targetNamespace="urn:a" elementFormDefault="qualified">'
+             '<xs:complexType name="B">%s</xs:complexType><xs:element name="b" type="a:B"/></xs:schema>' % (XS, w % c1))
+    b_xsd = ('<xs:schema xmlns:xs="%s" xmlns:a="urn:a" xmlns:b="urn:b" targetNamespace="urn:b" '
+             'elementFormDefault="qualified"><xs:import namespace="urn:a" schemaLocation="a.xsd"/>'
+             '<xs:complexType name="D"><xs:complexContent><xs:restriction base="a:B">%s</xs:restriction></xs:complexContent>'
+             '</xs:complexType><xs:element name="d" type="b:D"/></xs:schema>' % (XS, w % c2))
+    st.case()
+    d = tempfile.mkdtemp(prefix='vf_c14x_')
+    try:
+        with open(os.path.join(d, 'a.xsd'), 'w') as f:
+            f.write(a_xsd)
+        with open(os.path.join(d, 'b.xsd'), 'w') as f:
+            f.write(b_xsd)
+        try:
+            s = cls_of(ver)(os.path.join(d, 'b.xsd'))
+        except xmlschema.XMLSchemaException:
+            st.cls('crossns_restriction_rejected:' + kind)
+            return []
+    finally:
+        shutil.rmtree(d, ignore_errors=True)
+    st.cls('crossns_restriction_accepted:' + kind)
+    st.nt((ver, kind, c1, c2))
+    for ns in CROSS_PROBE_NS:
+        if kind == 'elem':
+            probe = ('<x:zz xmlns:x="%s"/>' % ns) if ns else '<zz xmlns=""/>'
+            mk = lambda p, n, el: '<%s:%s xmlns:%s="%s">%s</%s:%s>' % (p, el, p, n, probe, p, el)
+        else:
+            probe = ('xmlns:x="%s" x:zz="1"' % ns) if ns else 'zz="1"'
+            mk = lambda p, n, el: '<%s:%s xmlns:%s="%s" %s/>' % (p, el, p, n, probe)
+        dd, bb = mk('b', 'urn:b', 'd'), mk('a', 'urn:a', 'b')
+        if s.is_valid(dd) and not s.is_valid(bb):
+            return [{'kind': 'restriction_widens_wildcard_across_namespaces',
+                     'input': {'ver': ver, 'wildcard': kind, 'base_namespace': c1, 'derived_namespace': c2, 'probe_ns': ns},
+                     'expected': 'schema rejected, or every %s the derived wildcard (in urn:b) admits is admitted by the '
+                                 'base wildcard (in urn:a)' % ('child' if kind == 'elem' else 'attribute'),
+                     'observed': '%s valid, %s invalid' % (dd, bb), 'classes': [],
+                     'key': 'crossns|%s|%s|%s|%s' % (ver, kind, c1, c2)}]
+    return []
+
+
 # ------------------------------------------------------------------------------------ protocol
 
 def shards(tier, seed):
@@ -381,6 +436,7 @@ def shards(tier, seed):
         for k in range(2):
             out.append(('compositor', ver, k, tier, seed))
         out.append(('attrfixed', ver, tier, seed))
+        out.append(('crossns', ver, tier, seed))
         out.append(('unionpat', ver, tier, seed))
         if ver == '11':
             out.append(('opencontent', ver, tier, seed))
@@ -484,6 +540,16 @@ def run_shard(desc):
                                     core.report(st, PROPERTY, r)
         st.sample({'ver': ver, 'compositor swaps': 'all choices / sequences of 2-3 distinct leaves x 7 group occurrences x leaf optionality'})
         return st
+    if desc[0] == 'crossns':
+        _, ver, tier, seed = desc
+        for kind in ('elem', 'attr'):
+            for c1 in CROSS_NS:
+                for c2 in CROSS_NS:
+                    for r in judge_crossns(ver, kind, c1, c2, st):
+                        core.report(st, PROPERTY, r)
+        st.sample({'ver': ver, 'cross-namespace wildcard pairs': 'all ordered pairs of %s, element and attribute wildcards, '
+                   'base type in urn:a restricted in urn:b' % CROSS_NS})
+        return st
     if desc[0] == 'wildpairs':
         # every ordered pair of wildcard kinds x occurrence pairs, alone and next to an element
         _, ver, tier, seed = desc
@@ -568,6 +634,8 @@ def replay(record):
         if s.is_valid('<e2>%s</e2>' % v) and not s.is_valid('<e1>%s</e1>' % v):
             return [dict(record)]
         return []
+    if k == 'restriction_widens_wildcard_across_namespaces':
+        return judge_crossns(inp['ver'], inp['wildcard'], inp['base_namespace'], inp['derived_namespace'], st)
     if k == 'restriction_widens_open_content':
         return judge_open_content(inp['default'], inp['base_oc'], inp['derived_oc'], cm.tolist(inp['base']),
                                   cm.tolist(inp['derived']), st)
